@@ -1,7 +1,7 @@
 """C02 — decoding at an expected type is exactly the spec's coercion (structural clauses)."""
 import re
 
-from facts import AnchorMissing, callee, expr_path, nodes, pat_alternatives, pat_head, unblock, walk
+from facts import AnchorMissing, short, callee, expr_path, nodes, pat_alternatives, pat_head, unblock, walk
 from shared import TI, arm_rows, is_err_body, method_calls, the_match, variant_paths
 import c04
 import de_rules
@@ -258,7 +258,56 @@ def run(chk, facts, tier, only=None):
         import c10
         chk.include(c10, "C10.R6", "C02.R13", facts)    # a variant tag whose payload coerces (null at opt T) gets the accessor of the *expected* payload
 
-    for rid, desc, fn in (("C02.R1", "every wire read is preceded by tests of both the expected and the wire type", r1),
+    def r14():
+        """Back-tracking below `opt` recovers from Error::Subtype and from nothing else (C02.R3). That only implements the spec if the class of
+        an error is stable on its way up: (a) inside the decoder, its accessors and the library's visitors, the result of a re-entrant decoding
+        call is never re-wrapped (`map_err`, `with_context`, `context`, `or_else`: candid's Error turns a wrapped Subtype into Custom), so a
+        coercion failure stays recoverable; (b) the number kernels never report a malformed or out-of-range number as a Subtype error, so
+        such a message is never read as `null`."""
+        REENTRANT = re.compile(r"serde_core::de::(DeserializeSeed::deserialize|Deserialize::deserialize|Visitor::visit_\w+|VariantAccess::\w+|SeqAccess::next_\w+|"
+                               r"MapAccess::next_\w+|EnumAccess::variant\w*|Deserializer::deserialize_\w+)$")
+        WRAP = ("map_err", "with_context", "context", "or_else", "or")
+        scope = [h for k, h in sorted(c.hir.items()) if h.get("kind") in ("Fn", "AssocFn") and (
+            re.search(r"^<&(?:'a )?mut candid::de::Deserializer<'de> as serde_core::de::Deserializer<'de>>::", k)
+            or re.search(r"^<candid::de::(Compound|PrimitiveVecAccess)<.*> as serde_core::de::", k)
+            or re.search(r"^candid::de::Deserializer::<'de>::(recoverable_visit_some|deserialize_\w+)$", k)
+            or re.search(r" as serde_core::de::Visitor<'de>>::visit_\w+$", k))]
+        chk.floor("decoder / accessor / visitor functions scanned for error re-wrapping", len(scope), 80)
+        n_re = 0
+        for h in scope:
+            chk.analysed(h["key"])
+            for x in walk(h["body"]):
+                if x.get("k") in ("call", "mcall") and REENTRANT.search(callee(x) or ""):
+                    n_re += 1
+                if x.get("k") == "mcall" and x["m"] in WRAP:
+                    r_ = x["recv"]
+                    while isinstance(r_, dict) and r_.get("k") in ("block",) and not r_.get("stmts") and r_.get("e"):
+                        r_ = r_["e"]
+                    inner = [y for y in walk(r_) if y.get("k") in ("call", "mcall") and REENTRANT.search(callee(y) or "")]
+                    # only the receiver chain itself counts (a closure argument that decodes is not "the result being wrapped")
+                    direct = unblock(r_)
+                    while direct.get("k") == "mcall" and direct["m"] in ("map", "and_then", "inspect") :
+                        direct = unblock(direct["recv"])
+                    if direct.get("k") in ("call", "mcall") and REENTRANT.search(callee(direct) or ""):
+                        chk.bad(f"error-class:rewrapped:{short(h['key'])}:{x['m']}",
+                                f"{h['key']}: the result of the re-entrant decoding call `{short(callee(direct) or '')}` is passed through `.{x['m']}(..)`: a coercion "
+                                f"failure inside it (Error::Subtype) arrives at the enclosing `opt` as another error class, so the `opt` no longer reads as null and a "
+                                f"message the subtype check accepts fails to decode", where=f"{h['span']['file']}:{x.get('ln')}")
+        chk.floor("re-entrant decoding calls seen", n_re, 60)
+        chk.ok("error-class:no-rewrapping", f"{len(scope)} functions, {n_re} re-entrant calls, none re-wrapped", nontrivial=False)
+        kernels = [h for k, h in sorted(c.hir.items()) if re.search(r"^candid::types::(leb128::\w+|number::(Nat|Int)::(decode|encode))$|^<candid::types::number::\w+ as ", k)
+                   or re.search(r"^candid::de::Deserializer::<'de>::(try_read_leb_\w+|read_leb_\w+|read_len|borrow_bytes)$", k)]
+        chk.floor("number kernels scanned for the error class of their rejections", len(kernels), 10)
+        for h in kernels:
+            bad_ = [x for x in walk(h["body"]) if (x.get("k") == "call" and (callee(x) or "").endswith("error::Error::subtype"))
+                    or (x.get("k") in ("path", "call") and ((x.get("res") or x.get("callee") or {}).get("path", "") if isinstance(x.get("res") or x.get("callee"), dict) else "").endswith("error::Error::Subtype"))]
+            chk.expect(not bad_, f"error-class:malformed-number-is-not-a-coercion-failure:{short(h['key'])}",
+                       f"{h['key']} reports a malformed / out-of-range number as Error::Subtype: below an `opt` the decoder recovers from that class, so e.g. "
+                       f"`opt nat` holding 2^128 decodes at Option<u128> as None instead of being rejected",
+                       where=f"{h['span']['file']}:{bad_[0].get('ln') if bad_ else ''}", ok_detail="no Subtype error constructed")
+
+    for rid, desc, fn in (("C02.R14", "the class of a decoding error is stable: no re-wrapping of nested results, malformed numbers are not coercion failures", r14),
+                          ("C02.R1", "every wire read is preceded by tests of both the expected and the wire type", r1),
                           ("C02.R2", "the optional-omission set is {opt, null, reserved} at every site that implements it", r2),
                           ("C02.R3", "back-tracking below opt happens only for coercion (subtype) errors", r3),
                           ("C02.R4", "header validation is on the decoding path", r4),
